@@ -4,7 +4,9 @@ import (
 	"bytes"
 	"encoding/json"
 	"fmt"
+	"os"
 	"reflect"
+	"strings"
 	"testing"
 
 	"github.com/philpearl/avro"
@@ -27,7 +29,9 @@ type c14Case struct {
 	Schema ref.Schema `json:"schema"`
 	Layout []byte     `json:"layout"`
 	Extras bool       `json:"extras"`
-	Doc    string     `json:"doc"` // the rendered document (derived; kept for the reader)
+	// Escapes: strings in the document may be spelled with JSON escapes.
+	Escapes bool   `json:"escapes,omitempty"`
+	Doc     string `json:"doc"` // the rendered document (derived; kept for the reader)
 	// Malformed: apply this edit to Doc and expect an error.
 	Edit    string `json:"edit,omitempty"` // "", truncate, delete, insert, replace
 	EditPos int    `json:"edit_pos,omitempty"`
@@ -102,7 +106,7 @@ func applyEdit(doc string, c c14Case) string {
 }
 
 func runC14(c c14Case) (bool, []string, error) {
-	doc := ref.Render(c.Schema, &ref.Layout{Bits: c.Layout, Extras: c.Extras})
+	doc := ref.Render(c.Schema, &ref.Layout{Bits: c.Layout, Extras: c.Extras, Escapes: c.Escapes})
 	var labels []string
 	// the renderer itself is checked against the reference parser first, so a
 	// renderer bug cannot be blamed on the library
@@ -133,6 +137,9 @@ func runC14(c c14Case) (bool, []string, error) {
 	}
 	if c.Extras {
 		labels = append(labels, "extras_allowed")
+	}
+	if c.Escapes && strings.Contains(doc, `\u00`) {
+		labels = append(labels, "escaped_strings")
 	}
 
 	s, err := avro.SchemaFromString(doc)
@@ -186,6 +193,30 @@ func runC14(c c14Case) (bool, []string, error) {
 		if d := hs.Diff(c.Schema, ""); d != "" {
 			return nt, labels, fmt.Errorf("schema in the written header differs from the document: %s", d)
 		}
+		// a parsed schema is the caller's own value: whatever the caller does to it,
+		// parsing the same text again (from a string, from a file header) gives the
+		// document's schema
+		if len(c.Layout)%4 == 1 {
+			labels = append(labels, "parsed_value_edited_then_parsed_again")
+			f, err := os.CreateTemp("", "c14-*.avro")
+			if err != nil {
+				return nt, labels, fmt.Errorf("VERIF-INCONCLUSIVE %v", err)
+			}
+			name := f.Name()
+			f.Write(hdr.Bytes())
+			f.Close()
+			defer os.Remove(name)
+			for round := 0; round < 2; round++ {
+				fs1, err := avro.FileSchema(name)
+				if err != nil {
+					return nt, labels, fmt.Errorf("FileSchema on a header written by FileWriter: %v", err)
+				}
+				if d := fromLib(fs1).Diff(c.Schema, ""); d != "" {
+					return nt, labels, fmt.Errorf("FileSchema (call %d, after the caller edited the value an earlier call returned) differs from the document: %s", round+1, d)
+				}
+				scrambleLibSchema(&fs1)
+			}
+		}
 	}
 	rp, err := ref.ParseSchema(out)
 	if err != nil {
@@ -205,6 +236,12 @@ func runC14(c c14Case) (bool, []string, error) {
 			return nt, labels, fmt.Errorf("parse(marshal(s)) differs from s: %s", d)
 		}
 		labels = append(labels, "deepequal_nil_vs_empty_only")
+	}
+	scrambleLibSchema(&s)
+	if s2, err := avro.SchemaFromString(doc); err != nil {
+		return nt, labels, fmt.Errorf("second SchemaFromString of the same document failed: %v", err)
+	} else if d := fromLib(s2).Diff(c.Schema, ""); d != "" {
+		return nt, labels, fmt.Errorf("after the caller edited the first parse result, parsing the same document again gives a different schema: %s", d)
 	}
 	return nt, labels, nil
 }
@@ -261,8 +298,9 @@ func drawC14(t *rapid.T) c14Case {
 	if rapid.IntRange(0, 4).Draw(t, "canonical") != 0 {
 		c.Layout = gen.ChoiceBytes(t, "layout", gen.UniformRange(t, "nlayout", 0, 120))
 		c.Extras = rapid.Bool().Draw(t, "extras")
+		c.Escapes = rapid.IntRange(0, 2).Draw(t, "escapes") == 0
 	}
-	c.Doc = ref.Render(c.Schema, &ref.Layout{Bits: c.Layout, Extras: c.Extras})
+	c.Doc = ref.Render(c.Schema, &ref.Layout{Bits: c.Layout, Extras: c.Extras, Escapes: c.Escapes})
 	if rapid.IntRange(0, 3).Draw(t, "malformed") == 0 {
 		c.Edit = rapid.SampledFrom([]string{"truncate", "delete", "insert", "replace"}).Draw(t, "edit")
 		c.EditPos = rapid.IntRange(0, 1<<20).Draw(t, "pos")
@@ -275,4 +313,31 @@ func TestC14(t *testing.T) {
 	col := stats.New("C14")
 	col.Rule = c14Rule
 	propCheck(t, col, "c14", drawC14, runC14)
+}
+
+// scrambleLibSchema edits a schema value in place, everywhere: what a caller is
+// free to do with a value it was given.
+func scrambleLibSchema(s *avro.Schema) {
+	s.Type = "scrambled"
+	for i := range s.Union {
+		scrambleLibSchema(&s.Union[i])
+	}
+	if len(s.Union) > 1 {
+		s.Union[0], s.Union[1] = s.Union[1], s.Union[0]
+	}
+	if o := s.Object; o != nil {
+		o.Type, o.Name, o.Namespace, o.LogicalType, o.Size = "scrambled", "Scrambled", "scr.ambled", "scrambled", o.Size+7
+		for i := range o.Fields {
+			o.Fields[i].Name = "scrambled" + o.Fields[i].Name
+			scrambleLibSchema(&o.Fields[i].Type)
+		}
+		if len(o.Fields) > 1 {
+			o.Fields[0], o.Fields[1] = o.Fields[1], o.Fields[0]
+		}
+		scrambleLibSchema(&o.Items)
+		scrambleLibSchema(&o.Values)
+		for i := range o.Symbols {
+			o.Symbols[i] = "scrambled"
+		}
+	}
 }
